@@ -407,3 +407,332 @@ Example ex_pack_paths :
   | None => False
   end.
 Proof. exact ex_pack_paths_roundtrip. Qed.
+
+(* ---- 6. the REAL reader (C05 model) on the written image (coq/ImgReader) ---- *)
+(* Sections 4 and 5 read the tables back through a reader SPECIFICATION written from doc/format.adoc.  Here the reader
+   is coq/C05's model of the libsquashfs code itself (tied to the library by C05's and C10's checks and, on serializer
+   output, by this property's own leg): sqfs_super_read (read_super.c), sqfs_id_table_read / sqfs_read_table
+   (id_table.c, read_table.c: allocation arithmetic, location list, one seek + read per block inside the [lower, upper)
+   window), sqfs_meta_reader_seek / _read (meta_reader.c: absolute block positions, 16 bit header, block cache, C style
+   decompressor with an output capacity), sqfs_meta_reader_read_inode (read_inode.c, all 14 types, allocation sizes),
+   sqfs_readdir_state_init / sqfs_meta_reader_readdir (readdir.c: header / entry state machine, size accounting, signed
+   16 bit inode number delta), sqfs_dir_reader_get_inode, sqfs_dir_reader_get_full_hierarchy (read_tree.c: fill_dir with
+   the ancestor loop check, recursion, resolve_ids).  ReadImage.read_image_c05 is that sequence on the bytes of a file.
+   The refinement (coq/ImgReader: MetaRefine, InodeRefine, DirRefine, TreeRefine, IdRefine, SuperRefine) shows that on
+   every image that CONTAINS the output of sqfs_serialize_fstree (Embed.laid: inode table at inode_table_start and below
+   directory_table_start, directory table below the next table, id table written by sqfs_write_table, root reference,
+   block size, id count; everything else arbitrary) the reader model returns Ok with the tree the serializer was given —
+   no error, no Crash (out of bounds access), no exhausted loop bound.
+   Hypotheses that remain, all decidable: [trace_fits] (section 4, about the run); [alloc_fits] (every inode's variable
+   part — block list, symlink target, 2 x directory index + 256 — stays below the 2 GiB allocation limit the C05 model
+   is run with; alloc_fits_from_tree_bounds derives it from a bound on the input tree); the file is shorter than 2^63
+   bytes (off_t); the three loop bounds of the reader model are at least
+   #inodes (recursion depth), largest directory + 1 (entries of one listing), max (64, table sizes) (metadata blocks). *)
+From SqfsV Require C05.RBase C05.Super C05.Dir.
+From SqfsV Require Image.FinishModel Image.ImageProofs.
+From SqfsV Require ImgReader.MetaRefine ImgReader.Embed ImgReader.ReadImage ImgReader.SuperRefine ImgReader.Closed
+  ImgReader.ImageLaid ImgReader.AllocBound ImgReader.E2E ImgReader.Example ImgReader.ExampleE2E.
+
+(* reader_model_reads_serialized_tree: sqfs_dir_reader_get_full_hierarchy of the reader model, started on a fresh
+   directory reader with the serializer's id table, returns a tree T whose reading in Img's vocabulary (per node: type and
+   permission bits, uid / gid through the id table, mtime, inode number, link count, xattr index, symlink target / device
+   number / file location + size + block list / parent inode number; per directory the entry names in order) is
+   spec_tree of the serialized tree *)
+Theorem reader_model_reads_serialized_tree : forall compress uncompress, meta_contract compress uncompress ->
+  forall uc, Embed.uc_meets uncompress uc ->
+  forall limit, limit <= 65536 ->
+  forall bs t si,
+  representable bs t = true -> serialize_fstree compress limit t = Ok si ->
+  trace_fits si = true -> Embed.alloc_fits si = true ->
+  forall img s, Embed.laid compress img s bs si ->
+  forall depth efuel fuel,
+  (length t <= depth)%nat -> (Embed.max_entries t < efuel)%nat ->
+  (ReadImage.reader_fuel (si_itbl si) (si_dtbl si) <= fuel)%nat ->
+  exists dr T,
+    Dir.full_hierarchy uc img depth efuel fuel s (si_ids si) (Dir.dreader_create s) = RBase.Ok (dr, T) /\
+    spec_tree t (length t) (nlen t) = Some (Embed.ltree_of T) /\ Embed.tree_name T = [].
+Proof. exact Closed.full_hierarchy_serialized_l. Qed.
+Print Assumptions reader_model_reads_serialized_tree.
+
+(* ... and sqfs_id_table_read of the reader model finds the id table the serializer built (through the location list,
+   every block inside the window sqfs_id_table_read computes from the super block) *)
+Theorem reader_model_reads_id_table_and_tree : forall compress uncompress, meta_contract compress uncompress ->
+  forall uc, Embed.uc_meets uncompress uc ->
+  forall limit, limit <= 65536 ->
+  forall bs t si,
+  representable bs t = true -> serialize_fstree compress limit t = Ok si ->
+  trace_fits si = true -> Embed.alloc_fits si = true ->
+  forall img s, Embed.laid compress img s bs si ->
+  forall depth efuel fuel,
+  (length t <= depth)%nat -> (Embed.max_entries t < efuel)%nat ->
+  (ReadImage.reader_fuel (si_itbl si) (si_dtbl si) <= fuel)%nat ->
+  exists T,
+    ReadImage.read_tables_c05 uc depth efuel fuel img s = RBase.Ok (si_ids si, T) /\
+    spec_tree t (length t) (nlen t) = Some (Embed.ltree_of T) /\ Embed.tree_name T = [].
+Proof. exact Closed.read_tables_serialized_l. Qed.
+Print Assumptions reader_model_reads_id_table_and_tree.
+
+(* [laid] is not an empty condition: EVERY file Image.FinishModel.write_image (sqfs_writer_init / sqfs_writer_finish)
+   leaves contains its serializer output in that sense, whatever options / data / fragment table / export table / xattr
+   section / padding surround it, and its first 96 bytes are a super block the reader model's sqfs_super_read accepts *)
+Theorem written_image_contains_serializer_output : forall compress uncompress, meta_contract compress uncompress ->
+  forall limit, limit <= 65535 ->
+  forall cfg inp w,
+  FinishModel.write_image compress limit cfg inp = Ok w ->
+  ImageProofs.image_domain cfg inp = true -> ImageProofs.image_fits w = true ->
+  Common.lenN (FinishModel.image_bytes w) < RBase.two63 ->
+  Embed.laid compress (FinishModel.image_bytes w) (ReadImage.sup_of (FinishModel.w_super w))
+             (FinishModel.c_block_size cfg) (FinishModel.w_img w) /\
+  Super.super_read (FinishModel.image_bytes w) = RBase.Ok (ReadImage.sup_of (FinishModel.w_super w)).
+Proof.
+  exact (fun c u H l Hl cfg inp w Hw Hd Hf Hs =>
+           conj (ImageLaid.image_laid c u H l Hl cfg inp w Hw Hd Hf Hs)
+                (ImageLaid.image_super_read c u H l Hl cfg inp w Hw Hd Hf Hs)).
+Qed.
+Print Assumptions written_image_contains_serializer_output.
+
+(* reader_model_reads_written_image: the reader model run on the BYTES OF THE WHOLE FILE returns the committed super
+   block, the id table and the tree that was packed *)
+Theorem reader_model_reads_written_image : forall compress uncompress, meta_contract compress uncompress ->
+  forall uc, Embed.uc_meets uncompress uc ->
+  forall limit, limit <= 65535 ->
+  forall cfg inp w,
+  FinishModel.write_image compress limit cfg inp = Ok w ->
+  ImageProofs.image_domain cfg inp = true -> ImageProofs.image_fits w = true -> ImageLaid.reader_fits w = true ->
+  forall depth efuel fuel,
+  let t := FinishModel.in_tree inp in
+  (length t <= depth)%nat -> (Embed.max_entries t < efuel)%nat ->
+  (ReadImage.reader_fuel (si_itbl (FinishModel.w_img w)) (si_dtbl (FinishModel.w_img w)) <= fuel)%nat ->
+  exists T,
+    ReadImage.read_image_c05 uc depth efuel fuel (FinishModel.image_bytes w)
+      = RBase.Ok (ReadImage.sup_of (FinishModel.w_super w), si_ids (FinishModel.w_img w), T) /\
+    spec_tree t (length t) (nlen t) = Some (Embed.ltree_of T) /\ Embed.tree_name T = [].
+Proof. exact ImageLaid.written_image_read_back_l. Qed.
+Print Assumptions reader_model_reads_written_image.
+
+(* alloc_fits_from_tree_bounds: [alloc_fits], a condition on the serializer's OUTPUT, follows from a decidable bound on
+   the tree handed to it (AllocBound.tree_alloc_okb: per regular file 64 + 4 * #block size words <= 2^31, per symbolic
+   link 64 + |target| + 1 <= 2^31, per directory every entry name at most 16000 bytes) and trace_fits (fewer than 65536
+   index entries per directory): an index entry is 12 bytes + the name of an entry of that directory *)
+Theorem alloc_fits_from_tree_bounds : forall compress uncompress, meta_contract compress uncompress ->
+  forall limit, limit <= 65536 ->
+  forall bs t si,
+  representable bs t = true -> serialize_fstree compress limit t = Ok si -> trace_fits si = true ->
+  AllocBound.tree_alloc_okb t = true ->
+  Embed.alloc_fits si = true.
+Proof. exact AllocBound.alloc_fits_of_tree. Qed.
+Print Assumptions alloc_fits_from_tree_bounds.
+
+(* a C style decompressor that meets the refinement's contract exists for every abstract one *)
+Theorem reader_decompressor_contract : forall uncompress, Embed.uc_meets uncompress (ReadImage.uc_of uncompress).
+Proof. exact Closed.uc_of_meets. Qed.
+Print Assumptions reader_decompressor_contract.
+
+(* the boolean tree comparison the examples (and the tie's driver) use is sound *)
+Theorem ltree_comparison_sound : forall a b, ReadImage.opt_ltree_eqb a b = true -> a = b /\ a <> None.
+Proof. exact Closed.opt_ltree_eqb_eq. Qed.
+Print Assumptions ltree_comparison_sound.
+
+(* pack_paths_roundtrip_numbered: section 5's pack_paths_roundtrip with the clause it lacks: EVERY node the adds denote
+   got a real inode number — ino_of (position in fs->inodes + 1, with 0 standing for "none") of the node each flattened
+   path resolves to lies in 1 .. #inodes.  (Injectivity of a numbering that defaults to 0 would by itself tolerate one
+   un-numbered node; with this clause the hard-link groups of the read-back tree are exactly the classes of "resolves to
+   the same node".)  The end-to-end theorems below carry the same clause. *)
+Theorem pack_paths_roundtrip_numbered : forall compress uncompress, meta_contract compress uncompress ->
+  forall limit, limit <= 65536 ->
+  forall bs d ops fs pp fb xa img,
+  input_okb bs d ops = true ->
+  run_adds d (FstreeModel.fs_init d) ops = Some fs ->
+  PostModel.post_process fs = PostModel.POk pp ->
+  attached_okb bs fb xa pp = true ->
+  serialize_fstree compress limit (to_img fb xa pp) = Ok img ->
+  trace_fits img = true ->
+  exists lt fl,
+    read_tree uncompress bs (si_itbl img) (si_dtbl img) (si_ids img) (length (PostModel.pp_inodes pp)) (si_root img) = Some lt /\
+    denotes fb xa (FstreeModel.fs_root fs) fl /\
+    flat_lt [] lt = map (number (PostModel.pp_inodes pp)) fl /\
+    (forall x, In x fl -> 1 <= ino_of (PostModel.pp_inodes pp) (snd x) <= N.of_nat (length (PostModel.pp_inodes pp))) /\
+    (forall x y, In x fl -> In y fl ->
+       ino_of (PostModel.pp_inodes pp) (snd x) = ino_of (PostModel.pp_inodes pp) (snd y) -> snd x = snd y).
+Proof. exact E2E.pack_paths_roundtrip_numbered_l. Qed.
+Print Assumptions pack_paths_roundtrip_numbered.
+
+(* the numbering clause on its own: it holds of every flattening the adds denote *)
+Theorem denoted_nodes_are_numbered : forall bs d ops fs pp fb xa fl,
+  input_okb bs d ops = true ->
+  run_adds d (FstreeModel.fs_init d) ops = Some fs ->
+  PostModel.post_process fs = PostModel.POk pp ->
+  denotes fb xa (FstreeModel.fs_root fs) fl ->
+  forall x, In x fl -> 1 <= ino_of (PostModel.pp_inodes pp) (snd x) <= N.of_nat (length (PostModel.pp_inodes pp)).
+Proof. exact E2E.denoted_numbered. Qed.
+Print Assumptions denoted_nodes_are_numbered.
+
+(* pack_read_by_reader_model (C01 at the metadata level, END TO END): from the packer's add operations through
+   fstree_post_process, sqfs_serialize_fstree and the reader MODEL: the tree the reader model returns, flattened to
+   path |-> (type + permission bits, uid, gid, mtime, xattr index, target / device / file location, size, block list),
+   inode number, is the flattening of what the adds denote (section 5: denotes), every denoted node has an inode number
+   in 1 .. #inodes and the numbering is injective on the denoted nodes — the hard-link groups agree.  Hypotheses: the input bounds of section 5 (input_okb, attached_okb),
+   the run-level bounds trace_fits / alloc_fits, [laid], loop bounds. *)
+Theorem pack_read_by_reader_model : forall compress uncompress, meta_contract compress uncompress ->
+  forall uc, Embed.uc_meets uncompress uc ->
+  forall limit, limit <= 65536 ->
+  forall bs d ops fs pp fb xa si,
+  input_okb bs d ops = true ->
+  run_adds d (FstreeModel.fs_init d) ops = Some fs ->
+  PostModel.post_process fs = PostModel.POk pp ->
+  attached_okb bs fb xa pp = true ->
+  serialize_fstree compress limit (to_img fb xa pp) = Ok si ->
+  trace_fits si = true -> Embed.alloc_fits si = true ->
+  forall img s, Embed.laid compress img s bs si ->
+  forall depth efuel fuel,
+  (length (PostModel.pp_inodes pp) <= depth)%nat -> (Embed.max_entries (to_img fb xa pp) < efuel)%nat ->
+  (ReadImage.reader_fuel (si_itbl si) (si_dtbl si) <= fuel)%nat ->
+  exists T fl,
+    ReadImage.read_tables_c05 uc depth efuel fuel img s = RBase.Ok (si_ids si, T) /\
+    denotes fb xa (FstreeModel.fs_root fs) fl /\
+    flat_lt [] (Embed.ltree_of T) = map (number (PostModel.pp_inodes pp)) fl /\
+    (forall x, In x fl -> 1 <= ino_of (PostModel.pp_inodes pp) (snd x) <= N.of_nat (length (PostModel.pp_inodes pp))) /\
+    (forall x y, In x fl -> In y fl ->
+       ino_of (PostModel.pp_inodes pp) (snd x) = ino_of (PostModel.pp_inodes pp) (snd y) -> snd x = snd y).
+Proof. exact E2E.pack_read_by_reader_l. Qed.
+Print Assumptions pack_read_by_reader_model.
+
+(* pack_image_read_by_reader_model: the same with the whole image file in the middle (write_image: super block, tables,
+   layout, padding), read from its bytes by read_image_c05.  [image_rest_okb]: compressor id 1..6, fragment entries fit
+   their fields, compressor options = nothing or one uncompressed metadata block, xattr header inside its section — the
+   part of image_domain that is not "the tree is representable" (which is proved: post_tree_representable). *)
+Theorem pack_image_read_by_reader_model : forall compress uncompress, meta_contract compress uncompress ->
+  forall uc, Embed.uc_meets uncompress uc ->
+  forall limit, limit <= 65535 ->
+  forall d ops fs pp fb xa cfg inp w,
+  input_okb (FinishModel.c_block_size cfg) d ops = true ->
+  run_adds d (FstreeModel.fs_init d) ops = Some fs ->
+  PostModel.post_process fs = PostModel.POk pp ->
+  attached_okb (FinishModel.c_block_size cfg) fb xa pp = true ->
+  FinishModel.in_tree inp = to_img fb xa pp -> E2E.image_rest_okb cfg inp = true ->
+  FinishModel.write_image compress limit cfg inp = Ok w ->
+  ImageProofs.image_fits w = true -> ImageLaid.reader_fits w = true ->
+  forall depth efuel fuel,
+  (length (PostModel.pp_inodes pp) <= depth)%nat -> (Embed.max_entries (to_img fb xa pp) < efuel)%nat ->
+  (ReadImage.reader_fuel (si_itbl (FinishModel.w_img w)) (si_dtbl (FinishModel.w_img w)) <= fuel)%nat ->
+  exists T fl,
+    ReadImage.read_image_c05 uc depth efuel fuel (FinishModel.image_bytes w)
+      = RBase.Ok (ReadImage.sup_of (FinishModel.w_super w), si_ids (FinishModel.w_img w), T) /\
+    denotes fb xa (FstreeModel.fs_root fs) fl /\
+    flat_lt [] (Embed.ltree_of T) = map (number (PostModel.pp_inodes pp)) fl /\
+    (forall x, In x fl -> 1 <= ino_of (PostModel.pp_inodes pp) (snd x) <= N.of_nat (length (PostModel.pp_inodes pp))) /\
+    (forall x y, In x fl -> In y fl ->
+       ino_of (PostModel.pp_inodes pp) (snd x) = ino_of (PostModel.pp_inodes pp) (snd y) -> snd x = snd y).
+Proof. exact E2E.pack_image_read_by_reader_l. Qed.
+Print Assumptions pack_image_read_by_reader_model.
+
+(* ... with alloc_fits replaced by the tree-level bound: what remains about the run is image_fits (trace_fits, bytes_used <
+   2^64) and "the file is shorter than 2^63 bytes" *)
+Theorem pack_image_read_by_reader_model_input_bounds : forall compress uncompress, meta_contract compress uncompress ->
+  forall uc, Embed.uc_meets uncompress uc ->
+  forall limit, limit <= 65535 ->
+  forall d ops fs pp fb xa cfg inp w,
+  input_okb (FinishModel.c_block_size cfg) d ops = true ->
+  run_adds d (FstreeModel.fs_init d) ops = Some fs ->
+  PostModel.post_process fs = PostModel.POk pp ->
+  attached_okb (FinishModel.c_block_size cfg) fb xa pp = true ->
+  AllocBound.tree_alloc_okb (to_img fb xa pp) = true ->
+  FinishModel.in_tree inp = to_img fb xa pp -> E2E.image_rest_okb cfg inp = true ->
+  FinishModel.write_image compress limit cfg inp = Ok w ->
+  ImageProofs.image_fits w = true -> Common.lenN (FinishModel.image_bytes w) < RBase.two63 ->
+  forall depth efuel fuel,
+  (length (PostModel.pp_inodes pp) <= depth)%nat -> (Embed.max_entries (to_img fb xa pp) < efuel)%nat ->
+  (ReadImage.reader_fuel (si_itbl (FinishModel.w_img w)) (si_dtbl (FinishModel.w_img w)) <= fuel)%nat ->
+  exists T fl,
+    ReadImage.read_image_c05 uc depth efuel fuel (FinishModel.image_bytes w)
+      = RBase.Ok (ReadImage.sup_of (FinishModel.w_super w), si_ids (FinishModel.w_img w), T) /\
+    denotes fb xa (FstreeModel.fs_root fs) fl /\
+    flat_lt [] (Embed.ltree_of T) = map (number (PostModel.pp_inodes pp)) fl /\
+    (forall x, In x fl -> 1 <= ino_of (PostModel.pp_inodes pp) (snd x) <= N.of_nat (length (PostModel.pp_inodes pp))) /\
+    (forall x y, In x fl -> In y fl ->
+       ino_of (PostModel.pp_inodes pp) (snd x) = ino_of (PostModel.pp_inodes pp) (snd y) -> snd x = snd y).
+Proof. exact E2E.pack_image_read_by_reader_bounds_l. Qed.
+Print Assumptions pack_image_read_by_reader_model_input_bounds.
+
+(* non-vacuity: on the image of Image/Example.v (96 inode tree of section 4; compressor options, data area, fragment
+   table, export table) the hypotheses hold ... *)
+Example ex_reader_model_hyps :
+  match Image.Example.ex_w with
+  | Ok w =>
+      ImageLaid.reader_fits w = true /\ Embed.alloc_fits (FinishModel.w_img w) = true /\
+      (Common.lenN (FinishModel.image_bytes w) <? RBase.two63) = true /\
+      AllocBound.tree_alloc_okb ex_tree = true /\
+      N.of_nat ImgReader.Example.ex_depth = 96 /\ N.of_nat ImgReader.Example.ex_efuel = 47 /\
+      N.of_nat (ReadImage.reader_fuel (si_itbl (FinishModel.w_img w)) (si_dtbl (FinishModel.w_img w))) = 18939
+  | _ => False
+  end.
+Proof. exact ImgReader.Example.ex_reader_hyps. Qed.
+
+(* ... the reader model computes, from the bytes of the file, the committed super block, the id table and a tree of 97
+   nodes (the hard link shows twice) equal to spec_tree of the input; with a recursion bound of 2 or an entry bound of
+   46 the answer is OutOfFuel, not a wrong tree ... *)
+Example ex_reader_model_reads_image :
+  match Image.Example.ex_w with
+  | Ok w =>
+      let fuel := ReadImage.reader_fuel (si_itbl (FinishModel.w_img w)) (si_dtbl (FinishModel.w_img w)) in
+      match ReadImage.read_image_c05 ImgReader.Example.ex_uc ImgReader.Example.ex_depth ImgReader.Example.ex_efuel fuel
+                                     (FinishModel.image_bytes w) with
+      | RBase.Ok (s, ids, T) =>
+          s = ReadImage.sup_of (FinishModel.w_super w) /\ ids = [1000; 100; 0] /\ Embed.tree_name T = [] /\
+          N.of_nat (length (Dir.flatten T)) = 97 /\
+          ReadImage.opt_ltree_eqb (Some (Embed.ltree_of T)) (spec_tree ex_tree (length ex_tree) (nlen ex_tree)) = true /\
+          Super.s_inode_start s = 202 /\ Super.s_dir_start s = 8915 /\ Super.s_id_start s = 28363 /\
+          Super.s_root s = 525075220
+      | _ => False
+      end /\
+      ReadImage.read_image_c05 ImgReader.Example.ex_uc 2 ImgReader.Example.ex_efuel fuel (FinishModel.image_bytes w)
+        = RBase.OutOfFuel /\
+      ReadImage.read_image_c05 ImgReader.Example.ex_uc ImgReader.Example.ex_depth 46 fuel (FinishModel.image_bytes w)
+        = RBase.OutOfFuel
+  | _ => False
+  end.
+Proof. exact ImgReader.Example.ex_image_read_back. Qed.
+
+(* ... and the image satisfies [laid] *)
+Example ex_reader_model_laid :
+  match Image.Example.ex_w with
+  | Ok w => Embed.laid (img_compress 3) (FinishModel.image_bytes w) (ReadImage.sup_of (FinishModel.w_super w)) 4096
+                       (FinishModel.w_img w)
+  | _ => False
+  end.
+Proof. exact ImgReader.Example.ex_laid. Qed.
+
+(* end to end: the ten adds of section 5, written as a whole image (export table, 5000 byte data area), read back by the
+   reader model from the bytes of the file: hypotheses, then the flattening with its hard-link groups *)
+Example ex_pack_image_hyps :
+  match ImgReader.ExampleE2E.e2e_run with
+  | Some (pp, w, _) =>
+      E2E.image_rest_okb ImgReader.ExampleE2E.e2e_cfg (ImgReader.ExampleE2E.e2e_inp pp) = true /\
+      ImageProofs.image_fits w = true /\ ImageLaid.reader_fits w = true /\
+      AllocBound.tree_alloc_okb (to_img exp_fb exp_xa pp) = true /\
+      (Common.lenN (FinishModel.image_bytes w) <? RBase.two63) = true /\
+      FinishModel.c_block_size ImgReader.ExampleE2E.e2e_cfg = 4096 /\
+      length (PostModel.pp_inodes pp) = 7%nat /\ Embed.max_entries (to_img exp_fb exp_xa pp) = 6%nat
+  | None => False
+  end.
+Proof. exact ImgReader.ExampleE2E.ex_e2e_hyps. Qed.
+
+Example ex_pack_image_read_by_reader_model :
+  match ImgReader.ExampleE2E.e2e_run with
+  | Some (pp, w, RBase.Ok (s, ids, T)) =>
+      s = ReadImage.sup_of (FinishModel.w_super w) /\ ids = si_ids (FinishModel.w_img w) /\
+      ids = [1000; 100; 0; 5; 6; 1; 2] /\
+      flat_lt [] (Embed.ltree_of T) =
+        map (number (PostModel.pp_inodes pp))
+            (flat_pp exp_fb exp_xa (PostModel.pp_root pp) (PostModel.pp_inodes pp) [] (PostModel.pp_root pp)) /\
+      map (fun x => (fst (fst x), snd x)) (flat_lt [] (Embed.ltree_of T)) =
+        [([], 7); ([n_B], 6); ([n_a], 1); ([n_d], 5); ([n_d; n_l2], 1); ([n_d; n_sub], 4); ([n_d; n_sub; n_f], 1);
+         ([n_d; n_sub; n_k], 3); ([n_d; n_sub; n_p], 2); ([n_dev], 6); ([n_s], 3); ([n_z], 1)] /\
+      group_of N.eqb (flat_lt [] (Embed.ltree_of T)) 1 = [[n_a]; [n_d; n_l2]; [n_d; n_sub; n_f]; [n_z]] /\
+      group_of N.eqb (flat_lt [] (Embed.ltree_of T)) 3 = [[n_d; n_sub; n_k]; [n_s]] /\
+      map (fun x => snd (fst x))
+          (filter (fun x => PostModel.path_eqb (fst (fst x)) [n_d; n_l2]) (flat_lt [] (Embed.ltree_of T))) =
+        [mkPv 33188 (Some 1000) (Some 100) 1600000000 NOX (LFile 96 5000 0 NOX NOX [4096; 904])]
+  | _ => False
+  end.
+Proof. exact ImgReader.ExampleE2E.ex_e2e_read. Qed.
